@@ -153,7 +153,7 @@ Proof.
   rewrite <- Efl', <- Epre'. fold (field 3 2 bs) in Ek. rewrite <- Ek.
   destruct (N.testbit flags 0) eqn:B0.
   - (* empty *)
-    cbn [orb] in Ep. intros HH. assert (Es : s = tdb_new k) by congruence. subst s. rewrite Ep. change (PRE1 =? 1) with true.
+    cbn [orb] in Ep. intros HH. apply make_eq in HH as [_ Es]. cbn [no_items_b] in Es. subst s. rewrite Ep. change (PRE1 =? 1) with true.
     eexists. split; [reflexivity|]. cbn. repeat split; auto; discriminate.
   - destruct (N.testbit flags 1) eqn:B1.
     + (* single *)
@@ -161,7 +161,7 @@ Proof.
       destruct (rd_float_le f (skipn 8 bs)) as [[v r6]| |] eqn:E6; cbn [obind fst snd]; try discriminate.
       apply rd_float_inv in E6 as (L6 & -> & ->).
       destruct (finite_ok _); cbn [negb]; [|discriminate].
-      intros HH. match type of HH with Ok ?t = Ok s => assert (Es : s = t) by congruence end. subst s. rewrite Ep. change (PRE1 =? 1) with true. cbn [negb orb].
+      intros HH. apply make_eq in HH as [_ Es]. cbn [no_items_b] in Es. subst s. rewrite Ep. change (PRE1 =? 1) with true. cbn [negb orb].
       repeat match goal with
              | |- context [(length bs <? ?n)%nat] =>
                  replace (length bs <? n)%nat with false by (symmetry; apply Nat.ltb_ge; lia)
@@ -184,7 +184,7 @@ Proof.
       destruct (U64MAX <? _); [discriminate|].
       destruct (read_values f (N.to_nat nb) _) as [[vs rest']| |] eqn:E11; cbn [obind fst snd]; try discriminate.
       apply read_values_spec in E11 as (-> & L11); [|lia].
-      intros HH. match type of HH with Ok ?t = Ok s => assert (Es : s = t) by congruence end. subst s. rewrite Ep. change (PRE2 =? 2) with true. cbn [negb orb].
+      intros HH. apply make_eq in HH as [_ Es]. subst s. rewrite Ep. change (PRE2 =? 2) with true. cbn [negb orb].
       fold (field 8 4 bs) in *. fold (field 12 4 bs) in *. cbv zeta.
       repeat match goal with
              | |- context [(length bs <? ?n)%nat] =>
@@ -200,7 +200,9 @@ Proof.
                     = spec_values (fl f) (N.to_nat nb) (16 + vsize (fl f) + vsize (fl f) + N.to_nat nc * vs2 f) bs)
         by (rewrite <- Enc, <- Enb; f_equal; lia).
       repeat split; auto.
-      intros Hne. unfold abs_of. rewrite Hne. cbn [b_k b_rev b_min b_max b_cs b_buf]. rewrite Ecs, Evs.
+      intros Hne. unfold abs_of. rewrite Hne. unfold tdb_is_empty in Hne. cbn [b_k b_rev b_min b_max b_cs b_buf] in *.
+      fold (no_items_b (spec_pairs (fl f) (N.to_nat nc) (16 + vsize (fl f) + vsize (fl f)) bs) (spec_values (fl f) (N.to_nat nb) (16 + vsize (fl f) + vsize (fl f) + N.to_nat nc * vs2 f) bs)) in Hne.
+      rewrite Hne. rewrite Ecs, Evs.
       repeat (f_equal; try lia).
 Qed.
 
@@ -263,10 +265,10 @@ Proof.
   assert (R : tdb_dec f bs =
     (if k <? MINK then Err else
      if negb (nth 0 bs 0 =? (if N.testbit flags 0 || N.testbit flags 1 then PRE1 else PRE2)) then Err else
-     if N.testbit flags 0 then Ok (tdb_new k) else
+     if N.testbit flags 0 then tdb_make k false PINF NINF [] 0 [] else
      if N.testbit flags 1 then
        obind (rd_float_le f (skipn 8 bs)) (fun pv => if negb (finite_ok (fst pv)) then Err
-                                                     else Ok (mkTdb k (N.testbit flags 2) (fst pv) (fst pv) [(fst pv, 1)] 1 []))
+                                                     else tdb_make k (N.testbit flags 2) (fst pv) (fst pv) [(fst pv, 1)] 1 [])
      else
        obind (rd_le 4 (skipn 8 bs)) (fun pnc =>
        obind (rd_le 4 (snd pnc)) (fun pnb =>
@@ -280,7 +282,7 @@ Proof.
        let '(cs, cw, rest) := r in
        if U64MAX <? cw + nb then Err else
        obind (read_values f (N.to_nat nb) rest) (fun rv' =>
-       Ok (mkTdb k (N.testbit flags 2) (fst pmin) (fst pmax) cs cw (fst rv')))))))))).
+       tdb_make k (N.testbit flags 2) (fst pmin) (fst pmax) cs cw (fst rv'))))))))).
   { unfold tdb_dec.
     rewrite (rd_le_ok 1 bs) by lia. cbn [obind fst snd].
     rewrite (rd_le_ok 1 (skipn 1 bs)) by (rewrite skipn_length; lia). cbn [obind fst snd]. rewrite skipn_add. cbn [Nat.add].
@@ -301,7 +303,8 @@ Proof.
     intros Ha Adm. assert (Ea : a = mkTdAbs k false None [] []) by congruence. subst a.
     unfold abs_admissible in Adm. cbn [a_k a_cs a_buf a_minmax forallb] in Adm. repeat (apply andb_prop in Adm as [Adm ?]).
     eexists. split.
-    + rewrite R. replace (k <? MINK) with false by (change MINK with 10; lia). rewrite Ep. cbn [orb]. change (1 =? PRE1) with true. cbn [negb]. reflexivity.
+    + rewrite R. replace (k <? MINK) with false by (change MINK with 10; lia). rewrite Ep. cbn [orb]. change (1 =? PRE1) with true. cbn [negb].
+      apply make_new. apply N.ltb_ge. change MINK with 10. lia.
     + reflexivity.
   - destruct (N.testbit flags 1) eqn:B1.
     + (* single *)
@@ -315,7 +318,8 @@ Proof.
       eexists. split.
       * rewrite R. replace (k <? MINK) with false by (change MINK with 10; lia). rewrite Ep. cbn [orb]. change (1 =? PRE1) with true. cbn [negb].
         rewrite rd_float_ok by lia. cbn [obind fst snd]. fold v.
-        rewrite fin64_finite in Hf. rewrite Hf. cbn [negb]. reflexivity.
+        rewrite fin64_finite in Hf. rewrite Hf. cbn [negb].
+        apply make_ok; [apply N.ltb_ge; change MINK with 10; lia|left; discriminate].
       * reflexivity.
     + (* general form *)
       destruct (N.eqb_spec (nth 0 bs 0) 2) as [Ep|]; cbn [negb orb]; [|discriminate].
@@ -347,7 +351,9 @@ Proof.
         replace (U64MAX <? 0 + sumwN cs + nb) with false.
         2:{ symmetry. apply N.ltb_ge. unfold U64MAX, sumwN.
             assert (N.of_nat (length vs) = nb) by (unfold vs; rewrite spec_values_length; lia). lia. }
-        rewrite read_values_ok; [|lia|exact Abuf]. cbn [obind fst snd]. fold vs. reflexivity.
+        rewrite read_values_ok; [|lia|exact Abuf]. cbn [obind fst snd]. fold vs.
+        apply make_ok; [apply N.ltb_ge; change MINK with 10; lia|].
+        apply negb_true_iff in Ane. destruct cs; [right; destruct vs; [discriminate|discriminate]|left; discriminate].
       * unfold abs_of, tdb_is_empty. cbn [b_k b_rev b_min b_max b_cs b_buf b_cw].
         replace (match cs with [] => match vs with [] => true | _ :: _ => false end | _ :: _ => false end) with false.
         -- reflexivity.
@@ -459,10 +465,11 @@ Proof.
     destruct (_ <? _ * 16); [discriminate|].
     destruct (read_compat false _ (skipn 32 bs) 0) as [[cs cw]| |] eqn:E5; cbn [obind fst snd]; try discriminate.
     apply (read_compat_spec false) in E5 as (-> & L6); [|lia]. cbn [fl vsize] in L6.
-    intros HH. match type of HH with Ok ?t = Ok s => assert (Es : s = t) by congruence end. subst s.
+    intros HH. apply make_eq in HH as [_ Es]. subst s.
     cbv zeta. kill_len bs.
     eexists. split; [reflexivity|]. cbn [a_k a_cs a_buf b_k b_cs b_buf fl]. repeat split; auto.
-    intros Hne. unfold abs_of. rewrite Hne. reflexivity.
+    intros Hne. unfold abs_of. rewrite Hne. unfold tdb_is_empty in Hne. cbn [b_cs b_buf] in Hne.
+    match goal with |- context [no_items_b ?c []] => destruct c; [discriminate|reflexivity] end.
   - destruct (field_be 0 4 bs =? 2); [|discriminate].
     destruct (rd_be 8 (skipn 4 bs)) as [[mn r1]| |] eqn:E1; cbn [obind fst snd]; try discriminate.
     apply rd_be_at_inv in E1 as (L1 & -> & ->); [|lia]. cbn [Nat.add] in *.
@@ -478,10 +485,11 @@ Proof.
     apply rd_be_at_inv in E6 as (L7 & -> & ->); [|lia]. cbn [Nat.add] in *.
     destruct (read_compat true _ (skipn 30 bs) 0) as [[cs cw]| |] eqn:E5; cbn [obind fst snd]; try discriminate.
     apply (read_compat_spec true) in E5 as (-> & L6); [|lia]. cbn [fl vsize] in L6.
-    intros HH. match type of HH with Ok ?t = Ok s => assert (Es : s = t) by congruence end. subst s.
+    intros HH. apply make_eq in HH as [_ Es]. subst s.
     cbv zeta. kill_len bs.
     eexists. split; [reflexivity|]. cbn [a_k a_cs a_buf b_k b_cs b_buf fl]. repeat split; auto.
-    intros Hne. unfold abs_of. rewrite Hne. reflexivity.
+    intros Hne. unfold abs_of. rewrite Hne. unfold tdb_is_empty in Hne. cbn [b_cs b_buf] in Hne.
+    match goal with |- context [no_items_b ?c []] => destruct c; [discriminate|reflexivity] end.
 Qed.
 
 Theorem ref_accepted f bs a : is_ref_image bs = true -> spec_decode_ref bs = Some a -> abs_admissible a = true ->
@@ -507,9 +515,10 @@ Proof.
     rewrite rd_be_at_ok by lia. cbn [obind fst snd Nat.add]. rewrite skipn_length.
     replace (N.of_nat (length bs - 32) <? field_be 28 4 bs * 16) with false by lia.
     rewrite (read_compat_ok false); [|cbn [fl vsize]; lia|exact Acs|unfold sumwN, U64MAX; cbn [fl]; lia].
-    cbn [obind fst snd fl]. eexists. split; [reflexivity|].
-    unfold abs_of, tdb_is_empty. cbn [b_k b_rev b_min b_max b_cs b_buf].
-    destruct (spec_ref_pairs Double (N.to_nat (field_be 28 4 bs)) 32 bs); [discriminate|reflexivity].
+    cbn [obind fst snd fl].
+    destruct (spec_ref_pairs Double (N.to_nat (field_be 28 4 bs)) 32 bs); [discriminate|].
+    rewrite make_ok; [|apply N.ltb_ge; change MINK with 10; lia|left; discriminate].
+    eexists. split; reflexivity.
   - destruct (field_be 0 4 bs =? 2); [|discriminate].
     cbv zeta.
     match goal with |- context [(length bs <? ?n)%nat] => destruct (Nat.ltb_spec (length bs) n) as [|L30]; [discriminate|] end.
@@ -525,9 +534,10 @@ Proof.
     rewrite rd_be_at_ok by lia. cbn [obind fst snd Nat.add].
     rewrite rd_be_at_ok by lia. cbn [obind fst snd Nat.add].
     rewrite (read_compat_ok true); [|cbn [fl vsize]; lia|exact Acs|unfold sumwN, U64MAX; cbn [fl]; lia].
-    cbn [obind fst snd fl]. eexists. split; [reflexivity|].
-    unfold abs_of, tdb_is_empty. cbn [b_k b_rev b_min b_max b_cs b_buf].
-    destruct (spec_ref_pairs Float (N.to_nat (field_be 28 2 bs)) 30 bs); [discriminate|reflexivity].
+    cbn [obind fst snd fl].
+    destruct (spec_ref_pairs Float (N.to_nat (field_be 28 2 bs)) 30 bs); [discriminate|].
+    rewrite make_ok; [|apply N.ltb_ge; change MINK with 10; lia|left; discriminate].
+    eexists. split; reflexivity.
 Qed.
 
 (* ---------------- C12: the writer's bytes conform to the layout ---------------- *)
@@ -538,7 +548,7 @@ Theorem writer_conforms s : wfb s -> spec_decode Double (tdb_enc s) = Some (abs_
 Proof.
   intros W. pose proof (tdb_roundtrip s W) as R.
   destruct (tdb_is_empty s) eqn:E.
-  - destruct W as [[Hk1 Hk2] Hbuf _ _ [Hcw _] _ _ Hempty _].
+  - destruct W as [[Hk1 Hk2] Hbuf _ _ [Hcw _] _ _ Hempty].
     unfold tdb_is_empty in E. rewrite Hbuf in E. destruct (b_cs s) eqn:Ecs; [|discriminate].
     destruct (Hempty eq_refl) as (Emn & Emx & Erv).
     unfold abs_of, tdb_is_empty. rewrite Ecs, Hbuf, Erv.
